@@ -2,6 +2,7 @@ import KcpVerif.Lemmas.Sched
 import KcpVerif.Lemmas.SchedSource
 import KcpVerif.Lemmas.SchedLive
 import KcpVerif.Lemmas.SchedFair
+import KcpVerif.Lemmas.SchedClose
 /-!
 C17 — timed scheduler: every task runs exactly once, never early.
 
@@ -13,10 +14,16 @@ semantics (`Mode.sync` = `asynctimerchan=0`, `Mode.async` = `asynctimerchan=1`);
 Every theorem holds for both modes and every `k` (they are universally quantified).
 
 Tier of each claim: safety (at most once, never dropped, never early, drain never blocks, timer
-armed for the heap minimum, no lost wake-up, no deadlock) is proved; liveness under weak
-fairness is stated (`C17_exactly_once_full`) and only its safety half, deadlock-freedom and the
-possibility of completion from every reachable state (`C17_can_always_complete`) are proved
-(`C17_exactly_once_partial`).
+armed for the heap minimum, no lost wake-up, no deadlock), the possibility of completion from every
+reachable state (`C17_can_always_complete`) and — second round, at the end of this file —
+liveness are proved: `C17_exactly_once` (= `C17_exactly_once_full`: weak fairness per action),
+`C17_exactly_once_goroutine_fair` (weak fairness per goroutine), `C17_eventually_done` (the
+weakest assumption: the system never idles for ever while a step is enabled), each for runs in
+which submissions eventually pause and time diverges; `C17_bounded_work` bounds the number of
+scheduler/runtime steps after the last deadline for ANY schedule.  `Close`: `C17_close_safety`,
+`C17_close_no_goroutine_blocks`, `C17_close_frozen`.  Not claimed: liveness under an unbounded
+stream of `Put`s (needs the fairness of Go's randomised `select` and prompt runtime timers, which
+are outside the model), and wall-clock latency.
 -/
 namespace KcpVerif.Props
 open KcpVerif KcpVerif.Sched
@@ -220,10 +227,9 @@ structure FairRun (m : Mode) (k : Nat) (t0 : Time) where
   timeDiverges : ∀ T, ∃ n, T ≤ (st n).now
 
 /-- the full liveness claim: in every fair run every submitted task is eventually executed
-    (exactly once, by `C17_exactly_one_place`).  NOT proved: it needs a ranking argument over
-    `(|pre| + |batch|, heap sizes, timer state, now)`; for unboundedly many submissions it needs in
-    addition the fairness of Go's `select` and the promptness of the runtime's timers, which are
-    outside the model. -/
+    (exactly once, by `C17_exactly_one_place`).  PROVED below as `C17_exactly_once` (second round).
+    For unboundedly many submissions a claim of this kind would need in addition the fairness of
+    Go's `select` and the promptness of the runtime's timers, which are outside the model. -/
 def C17_exactly_once_full : Prop :=
   ∀ (m : Mode) (k : Nat) (t0 : Time), 0 < k → ∀ r : FairRun m k t0, ∀ n t, t ∈ (r.st n).sub →
     ∃ n', ((r.st n').done.map (·.task)).count t = 1
@@ -385,55 +391,6 @@ open KcpVerif KcpVerif.Sched
 
 /-! ### non-vacuity of the liveness theorem: a concrete fair run with a task -/
 
-/-- one worker; the start-up timer value is consumed, task 1 (deadline 5) is submitted at time 0,
-    pushed, the timer armed for 5; at time 6 it fires, the task runs; then only time passes -/
-def fairPrefix : List Label :=
-  [ .w 0 (.fire 0), .w 0 .recvTimer, .w 0 .loopEnd,
-    .put 1 5, .notify, .takeToken, .swap, .handoff 0,
-    .w 0 .readNow, .w 0 .stop, .w 0 .drain, .w 0 .reset,
-    .tick 6, .w 0 (.fire 6), .w 0 .recvTimer, .w 0 (.pop ⟨1, 5⟩), .w 0 .loopEnd ]
-
-def fairFin (m : Mode) : State := (run m (init 1 0) fairPrefix).getD (init 1 0)
-
-def fairSt (m : Mode) (n : Nat) : State :=
-  if n < 17 then (run m (init 1 0) (fairPrefix.take n)).getD (init 1 0)
-  else { fairFin m with now := 6 + (n - 17) }
-
-def fairLab (n : Nat) : Label := fairPrefix.getD n (.tick 1)
-
-def fairFinLit : State :=
-  { now := 6, sub := [⟨1, 5⟩], pre := [], pend := 0, ntok := false, ppc := .idle, batch := [],
-    ws := [{ pc := .select, heap := [], timer := ⟨none, none⟩, drained := true, armedAt := 0, usedNow := 0 }],
-    done := [⟨⟨1, 5⟩, 6⟩], log := [.exec 1 6, .put 1 5 0] }
-
-theorem fairFin_eq (m : Mode) : fairFin m = fairFinLit := by cases m <;> decide
-
-/-- in the final state (at any later clock value) nothing but `Put` and `tick` is enabled -/
-theorem fairFin_dead (m : Mode) (x : Time) (l : Label) (hp : ∀ id ts, l ≠ .put id ts)
-    (ht : ∀ d, l ≠ .tick d) : step m { fairFinLit with now := x } l = none := by
-  cases l with
-  | tick d => exact absurd rfl (ht d)
-  | put id ts => exact absurd rfl (hp id ts)
-  | notify => rfl
-  | takeToken => rfl
-  | swap => rfl
-  | handoff i => rfl
-  | w i wl =>
-    cases i with
-    | zero => cases wl <;> rfl
-    | succ i => rfl
-
-theorem fairSt_tail (m : Mode) (n : Nat) (h : 17 ≤ n) :
-    fairSt m n = { fairFinLit with now := 6 + (n - 17) } := by
-  simp only [fairSt, Nat.not_lt.mpr h, if_false, fairFin_eq]
-
-theorem fairLab_tail (n : Nat) (h : 17 ≤ n) : fairLab n = .tick 1 := by
-  have hlen : fairPrefix.length ≤ n := h
-  simp [fairLab, List.getD, List.getElem?_eq_none hlen]
-
-theorem fair_next_prefix (m : Mode) : ∀ n, n < 17 → step m (fairSt m n) (fairLab n) = some (fairSt m (n + 1)) := by
-  cases m <;> decide
-
 def demoFair (m : Mode) : FairRun m 1 0 where
   st := fairSt m
   lab := fairLab
@@ -560,5 +517,64 @@ def demoGoFair (m : Mode) : GoFairRun m 1 0 where
     rw [fairSt_tail m _ (Nat.le_max_right _ _), fairFin_dead m _ l hp ht] at hl
     cases hl
   timeDiverges := (demoFair m).timeDiverges
+
+end KcpVerif.Props
+
+/-! ### `Close` -/
+namespace KcpVerif.Props
+open KcpVerif KcpVerif.Sched
+
+/-- **safety survives `Close`** (transition system extended by `close`, the `<-ts.die` arms of the
+    three `select`s and `Put` after `Close`, `Lemmas/SchedClose.lean`): conservation, no id executed
+    twice, never early, and every submitted task is in exactly one place — executed once, or still
+    in `prependTasks` / the batch / a worker's hands or heap (where it is abandoned once the
+    goroutines have returned) -/
+theorem C17_close_safety {m : Mode} {k : Nat} {t0 : Time} {cs : CState} (h : CReachable m k t0 cs) :
+    cs.s.sub.Perm (cs.s.pre ++ cs.s.batch ++ heldAll cs.s.ws ++ cs.s.done.map (·.task)) ∧
+    (cs.s.done.map (·.task.id)).Nodup ∧
+    (∀ e, e ∈ cs.s.done → e.task.ts < e.time) ∧
+    ∀ t, t ∈ cs.s.sub → (pendingTasks cs.s).count t + (cs.s.done.map (·.task)).count t = 1 :=
+  ⟨(C17_conservation h.base).1, (C17_conservation h.base).2,
+   fun e he => (C17_never_early h.base e he).1, fun t ht => C17_exactly_one_place h.base t ht⟩
+
+/-- **no step after `Close` blocks for ever**: every goroutine that has not returned yet can move —
+    a worker outside its `select` has an own step (in particular the conditional `<-timer.C` still
+    never blocks), a worker at its `select` can return, the prepend goroutine can return (from
+    either `select`) or finish its swap -/
+theorem C17_close_no_goroutine_blocks {m : Mode} {k : Nat} {t0 : Time} {cs : CState}
+    (h : CReachable m k t0 cs) (hc : cs.closed = true) :
+    (∀ i w, cs.s.ws[i]? = some w → cs.wexited i = false →
+      (cstep m cs (.exitW i)).isSome ∨ ∃ l, (∀ v, l ≠ .fire v) ∧ (cstep m cs (.base (.w i l))).isSome) ∧
+    (cs.pexit = false → (cstep m cs .exitP).isSome ∨ (cstep m cs (.base .swap)).isSome) :=
+  ⟨fun _ _ hw hne => close_worker_not_blocked h hc hw hne, fun hne => close_prepend_not_blocked hc hne⟩
+
+/-- **once every worker has returned nothing runs any more** (`done` never changes again), so a
+    task is executed after `Close` only by a worker that has not yet noticed it -/
+theorem C17_close_frozen {m : Mode} {cs cs' : CState} {l : CLabel}
+    (hall : ∀ i, i < cs.s.ws.length → cs.wexited i = true) (hs : cstep m cs l = some cs') :
+    cs'.s.done = cs.s.done :=
+  close_frozen hall hs
+
+/-- non-vacuity: task 1 (deadline 100) is pushed, then `Close`; worker and prepend return; a `Put`
+    after `Close` is still accepted (the code has no check) — both tasks are abandoned, nothing ran -/
+def demoClose : List CLabel :=
+  [ .base (.w 0 (.fire 0)), .base (.w 0 .recvTimer), .base (.w 0 .loopEnd),
+    .base (.put 1 100), .base .notify, .base .takeToken, .base .swap, .base (.handoff 0),
+    .base (.w 0 .readNow), .close, .base (.w 0 .stop), .base (.w 0 .drain), .base (.w 0 .reset),
+    .exitW 0, .exitP, .base (.put 2 0), .base .notify, .base (.tick 500) ]
+
+example : (crun .sync (cinit 1 0) demoClose).map (fun cs => (cs.closed, cs.pexit, cs.wexit)) =
+    some (true, true, [true]) := by decide
+example : (crun .sync (cinit 1 0) demoClose).map (fun cs => cs.s.done.length) = some 0 := by decide
+example : (crun .sync (cinit 1 0) demoClose).map (fun cs => pendingTasks cs.s) =
+    some [⟨2, 0⟩, ⟨1, 100⟩] := by decide
+example : (crun .async (cinit 1 0) demoClose).map (fun cs => pendingTasks cs.s) =
+    some [⟨2, 0⟩, ⟨1, 100⟩] := by decide
+/-- a returned worker's timer does not fire, a returned worker takes no task -/
+example : ((crun .sync (cinit 1 0) demoClose).bind (fun cs => cstep .sync cs (.base (.w 0 (.fire 500))))) = none := by
+  decide
+/-- the worker cannot return in the middle of its Stop/drain/Reset section -/
+example : ((crun .sync (cinit 1 0) (demoClose.take 10)).bind (fun cs => cstep .sync cs (.exitW 0))) = none := by
+  decide
 
 end KcpVerif.Props
